@@ -18,7 +18,8 @@ type VP8Frame struct {
 	Seed uint64 `json:"seed"`
 	Nil  bool   `json:"nil,omitempty"`
 	// Toggle: the public EnablePictureID field is flipped before this call; the id stays the running frame counter
-	Toggle bool `json:"toggle,omitempty"`
+	Toggle bool   `json:"toggle,omitempty"`
+	MTU    uint16 `json:"mtu,omitempty"` // 0 = the case's MTU
 }
 
 type VP8PayCase struct {
@@ -43,6 +44,8 @@ type VP8DescCase struct {
 	// Zero: the receiver runs in zero-allocation mode (documented as a reduced feature set): a well-formed packet
 	// must still be accepted and the bytes after the descriptor returned; the fields are not compared
 	Zero bool `json:"zero,omitempty"`
+	// Jumbo: this many further payload bytes follow (packets of 64 KiB and more: an RTP packet over TCP or a jumbo datagram)
+	Jumbo int `json:"jumbo,omitempty"`
 }
 
 var (
@@ -74,6 +77,11 @@ func checkC11Pay(r *run, c *VP8PayCase) (CaseInfo, error) {
 	}
 	enabled := c.PictureID
 	for fi, f := range c.Frames {
+		mtu := c.MTU
+		if f.MTU != 0 {
+			mtu = f.MTU // this frame is sent with another MTU than the previous ones
+			ci.class("mtu-changes-between-frames")
+		}
 		if f.Toggle {
 			enabled = !enabled
 			p.EnablePictureID = enabled
@@ -84,7 +92,7 @@ func checkC11Pay(r *run, c *VP8PayCase) (CaseInfo, error) {
 			if !f.Nil {
 				empty = []byte{}
 			}
-			if out := p.Payload(c.MTU, empty); len(out) != 0 {
+			if out := p.Payload(mtu, empty); len(out) != 0 {
 				return ci, failf("frame %d: an empty buffer produced %d packets", fi, len(out))
 			}
 			ci.class("empty-call-interleaved")
@@ -93,18 +101,18 @@ func checkC11Pay(r *run, c *VP8PayCase) (CaseInfo, error) {
 		}
 		frame := expand(f.Seed, 0, f.Len)
 		orig := clone(frame)
-		pkts := p.Payload(c.MTU, frame)
+		pkts := p.Payload(mtu, frame)
 		if !bytes.Equal(frame, orig) {
 			return ci, failf("frame %d: payloader modified its input", fi)
 		}
 		if len(pkts) == 0 {
-			return ci, failf("frame %d (%d bytes, mtu %d, id %d): no packets", fi, f.Len, c.MTU, id)
+			return ci, failf("frame %d (%d bytes, mtu %d, id %d): no packets", fi, f.Len, mtu, id)
 		}
 		var cat []byte
 		var parts [][]byte // the payload slices as returned, read again once the whole frame is decoded
 		for pi, pk := range pkts {
-			what := fmt.Sprintf("frame %d (%d bytes, mtu %d, id %d) packet %d/%d %s", fi, f.Len, c.MTU, id, pi, len(pkts), hx(pk))
-			if len(pk) > int(c.MTU) {
+			what := fmt.Sprintf("frame %d (%d bytes, mtu %d, id %d) packet %d/%d %s", fi, f.Len, mtu, id, pi, len(pkts), hx(pk))
+			if len(pk) > int(mtu) {
 				return ci, failf("%s: %d bytes exceed the MTU", what, len(pk))
 			}
 			vp := &codecs.VP8Packet{}
@@ -156,10 +164,16 @@ func checkC11Pay(r *run, c *VP8PayCase) (CaseInfo, error) {
 			}
 		}
 		if !bytes.Equal(cat, orig) {
-			return ci, failf("frame %d (%d bytes, mtu %d): payloads concatenate to %d bytes that differ from the frame", fi, f.Len, c.MTU, len(cat))
+			return ci, failf("frame %d (%d bytes, mtu %d): payloads concatenate to %d bytes that differ from the frame", fi, f.Len, mtu, len(cat))
 		}
 		if joined := bytes.Join(parts, nil); !bytes.Equal(joined, orig) {
-			return ci, failf("frame %d (%d bytes, mtu %d): the payload slices returned for its %d packets, read again after the last packet was decoded, no longer concatenate to the frame (a receiver collecting them gets %d wrong bytes)", fi, f.Len, c.MTU, len(parts), len(joined))
+			return ci, failf("frame %d (%d bytes, mtu %d): the payload slices returned for its %d packets, read again after the last packet was decoded, no longer concatenate to the frame (a receiver collecting them gets %d wrong bytes)", fi, f.Len, mtu, len(parts), len(joined))
+		}
+		// the frame is sent, the caller recycles the packet buffers (capacity included): later frames must not depend on them
+		for _, pk := range pkts {
+			for k, full := 0, pk[:cap(pk)]; k < len(full); k++ {
+				full[k] ^= 0xFF
+			}
 		}
 		if len(pkts) >= 2 && enabled {
 			ci.Nontrivial = true
@@ -198,6 +212,10 @@ func checkC11Desc(r *run, c *VP8DescCase) (CaseInfo, error) {
 	d := c.desc()
 	db := vp8desc.Build(d)
 	full := append(clone(db), c.Payload...)
+	if c.Jumbo > 0 {
+		full = append(full, expand(uint64(c.Jumbo), 0, c.Jumbo)...)
+		ci.class("jumbo-payload")
+	}
 	in := full
 	if c.Cut >= 0 && c.Cut < len(full) {
 		in = full[:c.Cut]
@@ -290,6 +308,13 @@ func genVP8PayCase(t *rapid.T) *VP8PayCase {
 		}
 		c.Frames = append(c.Frames, VP8Frame{Len: l, Seed: rapid.Uint64().Draw(t, "seed"), Toggle: toggles && genBool(t, "toggle")})
 	}
+	if rapid.IntRange(0, 4).Draw(t, "varymtu") == 0 {
+		for i := range c.Frames {
+			if genBool(t, "ownmtu") {
+				c.Frames[i].MTU = uint16(biased(t, "framemtu", maxDesc+1, 65535, maxDesc+1, maxDesc+2, 100, 1200))
+			}
+		}
+	}
 	if rapid.IntRange(0, 5).Draw(t, "emptycalls") == 0 {
 		at := rapid.IntRange(0, len(c.Frames)).Draw(t, "emptyat")
 		c.Frames = append(c.Frames[:at:at], append([]VP8Frame{{Len: 0, Nil: genBool(t, "emptynil")}}, c.Frames[at:]...)...)
@@ -321,6 +346,9 @@ func genVP8DescCase(t *rapid.T) *VP8DescCase {
 		c.PictureID = uint16(biased(t, "pic", 0, 127, 0, 1, 126, 127))
 	}
 	c.Payload = genBytesN(t, "payload", rapid.IntRange(0, 40).Draw(t, "plen"))
+	if rapid.IntRange(0, 99).Draw(t, "jumbopayload") == 61 {
+		c.Jumbo = rapid.SampledFrom([]int{65490, 65530, 65536, 70000}).Draw(t, "jumbopayloadlen")
+	}
 	c.Cut = -1
 	if rapid.IntRange(0, 2).Draw(t, "docut") == 0 {
 		c.Cut = rapid.IntRange(0, 7).Draw(t, "cut")
@@ -329,7 +357,7 @@ func genVP8DescCase(t *rapid.T) *VP8DescCase {
 	return c
 }
 
-const ruleC11 = "payloader: picture ids on/off (one case in six flips the public EnablePictureID field between calls: the id stays the running frame counter), running id advanced to {0,1,2,5,125-129,32765-32769} by fast-forwarding 1-byte frames, 1-4 frames of 1-3000 bytes (one case in 60: a frame of 65530-200000 bytes) biased to k*(MTU-descriptor)+-1, MTU > descriptor size biased to +1..+3; every packet is decoded by VP8Packet (a fresh one per packet, or one for the whole stream) and by an independent RFC 7741 parser: payload concatenation = frame, S/IsPartitionHead first only, PID 0, <= MTU, id present in every packet (7-bit form < 128, 15-bit from 128), +1 per frame mod 2^15. descriptor: all X/I/L/T/K/M combinations with arbitrary field values and reserved bits from the reference builder, payload 0-40 bytes, truncations at every prefix 0-7; VP8Packet (receiver preloaded with other values) must read exactly the reference parse and reject cut descriptors (one case in eight runs in zero-allocation mode, where only acceptance and the returned bytes are checked); thorough adds all 2^16 first-two-octet combinations. Non-trivial = frame split into >=2 packets with ids on, id in {0,127,128,32767}, descriptor with >=2 optional fields or a truncation; distinct = FNV-64 of the JSON case"
+const ruleC11 = "payloader: picture ids on/off (one case in six flips the public EnablePictureID field between calls: the id stays the running frame counter), running id advanced to {0,1,2,5,125-129,32765-32769} by fast-forwarding 1-byte frames, 1-4 frames of 1-3000 bytes (one case in 60: a frame of 65530-200000 bytes) biased to k*(MTU-descriptor)+-1, MTU > descriptor size biased to +1..+3 (one case in five changes the MTU between frames); every packet is decoded by VP8Packet (a fresh one per packet, or one for the whole stream) and by an independent RFC 7741 parser: payload concatenation = frame, S/IsPartitionHead first only, PID 0, <= MTU, id present in every packet (7-bit form < 128, 15-bit from 128), +1 per frame mod 2^15. descriptor: all X/I/L/T/K/M combinations with arbitrary field values and reserved bits from the reference builder, payload 0-40 bytes (one case in a hundred followed by 64 KiB more), truncations at every prefix 0-7; VP8Packet (receiver preloaded with other values) must read exactly the reference parse and reject cut descriptors (one case in eight runs in zero-allocation mode, where only acceptance and the returned bytes are checked); thorough adds all 2^16 first-two-octet combinations. Non-trivial = frame split into >=2 packets with ids on, id in {0,127,128,32767}, descriptor with >=2 optional fields or a truncation; distinct = FNV-64 of the JSON case"
 
 func TestC11(t *testing.T) {
 	r := begin(t, "C11", "exploration", ruleC11)
